@@ -14,7 +14,8 @@ Bounded-exhaustive product (engine E1) over the real ``passlib.totp.TOTP``:
   loader and through ``from_source``: must raise ValueError (any subclass), never another exception, never load.
 * part ``colon``: every string <= 2 containing ':' must be refused (ValueError) as label and as issuer by the
   constructor, by ``to_uri(label=, issuer=)`` and by ``using(issuer=)``.
-* part ``wallet``: encrypted keys under application secrets -- enumerated only when ``passlib.totp.AES_SUPPORT``.
+* part ``wallet``: encrypted keys under application secrets: written under every tag set x default tag x cost
+  (incl. cost 0), read under every tag set x cost; AES from `cryptography` or the pinned pure-Python stand-in.
 
 Oracle: the object loaded back *by the class that wrote it* has equal key / alg / digits / period / label / issuer and
 produces equal codes at 4 probe times; ``from_source`` agrees with the direct loader; every URI is additionally read
@@ -499,12 +500,36 @@ def wallet_default_tag(tags):
     return max(tags)
 
 
+REPO_VECTORS = (  # stored ciphertexts from the repository's own tests/test_totp.py (secrets {"1": "abcdef", "2": b"\x00\xff"})
+    (dict(v=1, c=13, s="6D7N7W53O7HHS37NLUFQ", k="MHCTEGSNPFN5CGBJ", t="1"), b"\xe0\x1cc\x0c!\x84\xb0v\xce\x99"),
+    (dict(v=1, c=13, s="SPZJ54Y6IPUD2BYA4C6A", k="ZGDXXTVQOWYLC2AU", t="1"), b"\xe0\x1cc\x0c!\x84\xb0v\xce\x99"),
+    (dict(v=1, c=8, s="FCCTARTIJWE7CPQHUDKA", k="D2DRS32YESGHHINWFFCELKN7Z6NAHM4M", t="2"),
+     b"\xee]\xcb9\x870\x06 D\xc8y/\xa54&\xe4\x9c\x13\xc2\x18"),
+)
+
+
+def ensure_aes():
+    """the wallet clause needs AES-256-CTR: the `cryptography` package when present, else the pure-Python stand-in
+    (mc.refs.aes, pinned to FIPS-197 / SP 800-38A vectors) installed at passlib.totp's two module-level cipher names.
+    Returns "cryptography" or "stand-in"."""
+    import passlib.totp as T
+    from mc.refs import aes
+
+    if T._cg_ciphers is not None and T._cg_ciphers is not aes.standin_ciphers:
+        return "cryptography"
+    if T._cg_ciphers is None:
+        bad = aes.self_check()
+        if bad:
+            raise HarnessError(f"AES stand-in fails its vectors: {bad}")
+        aes.install(T)
+    return "stand-in"
+
+
 def eval_wallet(case):
     """written under `wtags` (+ default tag / cost), read under `rtags`"""
     import passlib.totp as T
 
-    if not T.AES_SUPPORT:
-        return []
+    ensure_aes()
     saved = T.rng
     T.rng = random.Random(case["seed"])
     try:
@@ -681,7 +706,7 @@ def wallet_cases(seed, quick):
         for wtags in WALLET_SETS:
             for wdefault in (None,) + tuple(wtags):
                 for rtags in WALLET_SETS:
-                    for wcost, rcost in ((4, 4), (4, 5), (6, 4)):
+                    for wcost, rcost in ((4, 4), (4, 5), (6, 4), (0, 0), (0, 3), (3, 0), (1, 0)):
                         for fmt in ("json", "dict"):
                             cases.append({"kind": "wallet", "key": key, "digits": 6 if n != 20 else 8, "wtags": list(wtags),
                                           "wdefault": wdefault, "rtags": list(rtags), "wcost": wcost, "rcost": rcost,
@@ -743,15 +768,20 @@ def run(ctx):
             colon.append(s)
     tasks.append({"part": "colon", "texts": colon, "seed": seed})
     # ---- wallet
-    if T.AES_SUPPORT:
-        wc = wallet_cases(seed, ctx.quick)
-        for chunk in core.chunked(wc, 64):
-            tasks.append({"part": "wallet", "cases": chunk, "seed": seed})
-        ctx.cov["wallet_clause"] = "enumerated"
-    else:
-        ctx.assume("passlib.totp.AES_SUPPORT is False on this host (package 'cryptography' missing): the encrypted-key clause "
-                   "(wallet tags / costs / still-listed secrets) is NOT enumerated in this run; it is enumerated when AES support is present")
-        ctx.cov["wallet_clause"] = "skipped: no AES support"
+    provider = ensure_aes()
+    w = T.AppWallet({"1": "abcdef", "2": b"\x00\xff"})
+    for enc, want in REPO_VECTORS:
+        if w.decrypt_key(dict(enc))[0] != want:
+            raise HarnessError(f"AES provider {provider} does not decrypt the repository's stored vector {enc}")
+    wc = wallet_cases(seed, ctx.quick)
+    for chunk in core.chunked(wc, 64):
+        tasks.append({"part": "wallet", "cases": chunk, "seed": seed})
+    ctx.cov["wallet_clause"] = f"enumerated; AES-256-CTR provided by: {provider}"
+    if provider == "stand-in":
+        ctx.assume("package 'cryptography' is missing on this host: AES-256-CTR is supplied at passlib.totp._cg_ciphers / "
+                   "_cg_default_backend by a pure-Python implementation (mc/refs/aes.py) pinned to FIPS-197 C.1/C.3 and SP 800-38A F.5.5 "
+                   "and to the three stored ciphertexts of tests/test_totp.py; the wallet bookkeeping (tags, costs, salts, secrets) "
+                   "is the library's own code")
     tasks.sort(key=lambda t: t["part"] != "strings")
     ctx.log(f"{len(tasks)} shards")
     import concurrent.futures
